@@ -6,13 +6,46 @@ bootstrap()
 
 import pyvaporation as pv  # noqa: E402
 from pyvaporation import (  # noqa: E402
-    Component, Components, Composition, Conditions, DiffusionCurve, DiffusionCurveSet,
+    Component, Components, Composition, Conditions, DiffusionCurveSet,
     HeatCapacityConstants, IdealExperiment, IdealExperiments, Membrane, Mixture, Mixtures,
     NRTLParameters, Permeance, Pervaporation, TemperatureProgram, UNIQUACConstants,
     UNIQUACParameters, VaporPressureConstants,
 )
 
+from pyvaporation import DiffusionCurve as _DiffusionCurve  # noqa: E402
+
 KG = "kg/(m2*h*kPa)"
+CURVE_READS = ("permeate_composition", "get_separation_factor", "get_psi", "get_selectivity", "get_permeances")
+
+
+def read_curve(curve):
+    """Reads every derived quantity of a curve once (they are read-only views: a curve read before is the same curve)."""
+    for name in CURVE_READS:
+        try:
+            getattr(curve, name)
+            len(curve)
+        except Exception:
+            pass
+    return curve
+
+
+def curve_from_frame(frame):
+    return _DiffusionCurve.from_frame(frame)
+
+
+def DiffusionCurve(**kwargs):
+    """Constructs a DiffusionCurve; for every second feed temperature (lowest mantissa bit - deterministic per case) the curve's
+    derived quantities are read once before it is handed to the check, as a user who looked at the curve first would have."""
+    import struct
+
+    curve = _DiffusionCurve(**kwargs)
+    t = kwargs.get("feed_temperature")
+    try:
+        if struct.pack("<d", float(t))[0] & 1:
+            read_curve(curve)
+    except (TypeError, ValueError):
+        pass
+    return curve
 
 
 def fresh(s):
